@@ -310,6 +310,9 @@ func prodTemplates() []prodTemplate {
 		{"alias2", []kit.Reg{{Outs: []kit.Out{{T: "D2"}}, As: []string{"IA", "IB"}}}},
 		{"alias-named", []kit.Reg{{Outs: []kit.Out{{T: "D2"}}, As: []string{"IA"}, Name: "k1"}}},
 		{"alias-group", []kit.Reg{{Outs: []kit.Out{{T: "D2"}}, As: []string{"IA"}, Group: "g"}, {Outs: []kit.Out{{T: "D3"}}, As: []string{"IA"}, Group: "g"}}},
+		// two aliases in one group whose per-type member lists have DIFFERENT lengths (an earlier member exists for IA only)
+		{"alias2-group-offset", []kit.Reg{{Outs: []kit.Out{{T: "D3"}}, As: []string{"IA"}, Group: "g"}, {Outs: []kit.Out{{T: "D2"}}, As: []string{"IA", "IB"}, Group: "g"}, {Outs: []kit.Out{{T: "D4"}}, As: []string{"IB"}, Group: "g"}}},
+		{"alias2-named", []kit.Reg{{Outs: []kit.Out{{T: "D2"}}, As: []string{"IA", "IB"}, Name: "k1"}, {Outs: []kit.Out{{T: "D3"}}, As: []string{"IA"}}}},
 		{"instance", []kit.Reg{{Kind: "instance", Outs: []kit.Out{{T: "P0"}}}}},
 		{"instance-named", []kit.Reg{{Kind: "instance", Outs: []kit.Out{{T: "P1"}}, Name: "k1"}}},
 		{"instance2-named", []kit.Reg{{Kind: "instance", Outs: []kit.Out{{T: "P1"}}, Name: "k1"}, {Kind: "instance", Outs: []kit.Out{{T: "P1"}}, Name: "k2"}, {Kind: "instance", Outs: []kit.Out{{T: "P1"}}}}},
